@@ -177,6 +177,8 @@ def contains_symbolic(v, depth=0) -> bool:
         v, (SObj, SCls, Opaque, SFmt, BoundMethod, Closure, SuperProxy, FloatDiv, SRepeat, TextOf)
     ):
         return True
+    if type(v).__name__ in ("SStr", "SSet"):
+        return True
     if depth > 4:
         return False
     if isinstance(v, (list, tuple, set, frozenset)):
@@ -189,3 +191,24 @@ def contains_symbolic(v, depth=0) -> bool:
     if isinstance(v, slice):
         return any(contains_symbolic(x, depth + 1) for x in (v.start, v.stop, v.step))
     return False
+
+
+class SStr:
+    """symbolic string: a term of the uninterpreted sort Str (sym.StrS);
+    lower / strip / concatenation / str(int) are uninterpreted functions"""
+
+    def __init__(self, term):
+        self.term = term
+
+    def __repr__(self):
+        return f"SStr({self.term})"
+
+
+class SSet:
+    """symbolic set of strings (z3 Array Str -> Bool); mutable like a Python set"""
+
+    def __init__(self, term):
+        self.term = term
+
+    def __repr__(self):
+        return f"SSet({self.term})"
